@@ -305,6 +305,14 @@ let run ~tier ~seed ~only acc =
     (* fixed 32-byte records against a power-of-two limit: the running total lands exactly on the limit *)
     ("limit_hit_exactly", List.init 20 (fun i -> (Printf.sprintf "k%03d" i, String.make 12 'v')), 128, 0);
     ("limit_hit_exactly", List.init 40 (fun i -> (Printf.sprintf "k%03d" (i mod 9), String.make 12 'v')), 256, 0);
+    (* lengths at the edges of the varint encodings in the chunk files: a value of 128 / 256 bytes under the empty key
+       (also reached by merging 100 + 1 + 27 bytes), a key of 16384 bytes with nothing shared, one byte either side *)
+    ("varint_edge_lengths", [ ("", String.make 128 'v'); ("b", String.make 256 'w'); ("c", String.make 127 'x'); ("d", String.make 129 'y') ], 1, 0);
+    ("varint_edge_lengths", [ ("", String.make 128 'v'); ("b", String.make 256 'w'); ("c", String.make 127 'x'); ("d", String.make 129 'y') ], 1000000, 2);
+    ("varint_edge_lengths", [ ("", String.make 100 'v'); ("b", "w"); ("", String.make 27 'u') ], 1, 0);
+    ("varint_edge_lengths", [ ("", String.make 100 'v'); ("b", "w"); ("", String.make 27 'u'); ("", String.make 127 't') ], 1000000, 0);
+    ("varint_edge_lengths", [ (String.make 16384 'k', "v"); ("a", "1"); (String.make 16383 'j', "2"); (String.make 16385 'l', "3"); (String.make 128 'm', String.make 16384 'z') ], 1, 0);
+    ("varint_edge_lengths", [ (String.make 16384 'k', "v"); ("a", "1"); (String.make 16383 'j', "2"); (String.make 16385 'l', "3"); (String.make 128 'm', String.make 16384 'z') ], 40000, 1);
   ] in
   List.iter (fun (klass, ops, maxmem, pool) ->
     List.iter (fun use_write -> if want () then check acc ~klass ~ops ~maxmem ~pool ~use_write ~fail_at:0; incr idx) [ false; true ]) directed;
